@@ -580,7 +580,9 @@ class ChainedDiscretizer(BaseDiscretizer):
 
                     # adding unknown to the order
                     for unknown_value in unknown_values:
-                        order.append(unknown_value)
+                        # (a converted numeric value already is in the order, with its numeric twin)
+                        if unknown_value not in order:
+                            order.append(unknown_value)
                         if self.str_nan not in order:
                             order.append(self.str_nan)
                         # grouping unknown value with str_nan
